@@ -388,33 +388,40 @@ class Frame:
             if not (isinstance(init, ast.List) and len(init.elts) == 1):
                 return False
             builders[lname] = s.value.args[0]
-        for lname, expr in builders.items():
-            for n in ast.walk(expr):
-                if isinstance(n, ast.Name) and isinstance(n.ctx, ast.Load):
-                    if n.id == elt.id or n.id == idx_name or n.id in self.flow.np_aliases:
-                        continue
-                    if n.id in builders:
-                        p = getattr(n, "_parent", None)
-                        if isinstance(p, ast.Subscript) and p.value is n and (_const_int(p.slice) or 0) < 0:
-                            continue
-                        return False
-                    v = self.env.get(n.id)
-                    if isinstance(v, Sc) and v.dep == "const":
-                        continue
+        # abstract evaluation of the appended expressions: the loop element, the
+        # index and the entries built so far are "already seen" (constants w.r.t.
+        # look-ahead); anything else that depends on the data is a look-ahead.
+        saved = dict(self.env)
+        worst = {}
+        try:
+            self.env[elt.id] = CONST
+            if idx_name:
+                self.env[idx_name] = CONST
+            for lname in builders:
+                self.env[lname] = Arr(NINF, None)
+            for lname, expr in builders.items():
+                v = self.ev(expr)
+                if v is TOP:
                     return False
-                if isinstance(n, ast.Call):
-                    return False
-            # the initial element
+                worst[lname] = v
+        finally:
+            self.env = saved
+        for lname in builders:
             init = self.defs[lname].elts[0]
             iv = self.ev(init)
             ok_init = (isinstance(iv, Sc) and iv.dep == "const") or (
                 isinstance(init, ast.Subscript) and _const_int(init.slice) == 0
                 and isinstance(self.ev(init.value), Arr) and self.ev(init.value).lag == 0)
             if not ok_init:
-                return False
-        for lname in builders:
-            self.env[lname] = Arr(0, 0, False, None, "append-builder over enumerate(x[1:])")
+                worst[lname] = WHOLE(f"initial element {norm(init)} is not x[0] or a constant")
         self.builder_lists = sorted(builders)
+        for lname in builders:
+            v = worst[lname]
+            if isinstance(v, Sc) and v.dep == "const":
+                self.env[lname] = Arr(0, 0, False, None, "append-builder over enumerate(x[1:])")
+            else:
+                why = getattr(v, "why", "") or "appended value depends on more than the draws seen so far"
+                self.env[lname] = Arr(INF, 0, False, None, "append-builder looks ahead: " + why)
         return True
 
     # -- expressions ----------------------------------------------------------
@@ -526,6 +533,7 @@ class Frame:
             return TOP
         k = _const_int(sl)
         if k is not None:
+            self.events.append(Event("index_load", norm(n.value)[:40], n, b, None, index=k))
             if b.lag <= NINF:
                 return CONST
             return WHOLE(f"{norm(n)} (entry at a fixed position of a data-dependent array)")
